@@ -149,6 +149,8 @@ pub fn to_token_stream(this: &Plurals, strings_count: usize) -> TokenStream {
 
     quote! {
         {
+            // the closure takes its own copy of the count: another plural or `{{ count }}` next to this one uses it too.
+            let #count_key = core::clone::Clone::clone(&#count_key);
             #captured_values
             let _plural_rules = l_i18n_crate::__private::get_plural_rules(#locale_field, #rule_type);
             move || {
